@@ -146,6 +146,31 @@ CHECKS = {
         note=TB + " Partial: process behaviour (fork/exec, waitpid, SIGTERM escalation, pipe buffering and timing) is a parameter or observed, not modelled; a peer that stays alive and silent blocks the VM (outside the property's fault list).",
         technique="Lean 4 proof (decision logic + induction over calls) + scripted-peer fault enumeration against the real binary",
         design="6/C16"),
+    "C17": dict(
+        text=("Lean 4 theorems over a model of the daemon (wire framing with constants regenerated from vmd_protocol.h, the session handler, the client's reassembly "
+              "loop, and a descriptor-level process model in which any number of session threads issue accept/write/close events in an arbitrary interleaving): "
+              "isolation - for EVERY interleaving of ANY number of sessions that follow the session discipline (one connection, writes, exactly one close) each client "
+              "receives exactly the bytes its own session wrote, in order, although the kernel reuses descriptor numbers (ownership invariant, induction over the "
+              "event trace; a double close is shown on the model to deliver one client's output to another); reassembly/transparent - however stdio chops the output "
+              "into OUTPUT frames, the client reassembles exactly the standalone output bytes, error text and exit code. Tie and oracle on the real daemon: modules "
+              "with unique tags, partial lines, 30 KB lines, run-time errors, deep values and random programs are run standalone and through a private nano_vmd "
+              "(hook H3), sequentially and in waves of up to 64 simultaneous clients with jitter, under an LD_PRELOAD scheduling shim and under strace; every "
+              "client's view must equal standalone, reply frames must equal the model's, and the strace log must satisfy the discipline the theorem assumes."),
+        note=TB + " Partial: data races on process-wide memory below the system-call level (stdio buffers, CRC table initialisation) cannot be exhibited by the model; they are searched for by concurrent runs (and a ThreadSanitizer build is not part of the quick tier). Thread scheduling is an arbitrary interleaving in the model and whatever the kernel plus the shim produce in the runs.",
+        technique="Lean 4 proof (invariant over all interleavings of session event traces; framing round trip) + translator + differential correspondence on reply frames + strace trace-conformance + concurrent differential oracle",
+        design="6/C17"),
+    "C18": dict(
+        text=("Lean 4 theorems over the session model `serve`, a function of EVERY byte sequence a peer may have sent before it stopped sending (so every message prefix "
+              "and every disconnect point is an input): a session asks the daemon to stop iff its first eight bytes are a valid SHUTDOWN header (shutdown_iff); hence "
+              "after ANY sequence of sessions without such a request - garbage, wrong version, oversized or inconsistent length, truncated payload, non-module or "
+              "hostile payload, early disconnect - the daemon is still accepting and its client count is unchanged (survives); short, wrong-version and oversized headers "
+              "get no reply; every valid LOAD_EXEC ends with exactly one terminal frame after only OUTPUT frames (exec_reply_shape); a well-formed client served after "
+              "or between ill-behaved sessions gets the reply of its own program (unaffected). On the real daemon: the catalogue of ill-behaved clients, truncations at "
+              "every length class, crafted modules (field mutants with recomputed CRC, 1..129 imports), sessions abandoned mid-output raced against a silent and a normal "
+              "client; after EVERY step the pid must be alive, PING answered and a well-formed client served exactly like standalone; replies compared with the model."),
+        note=TB + " Partial: a crash inside the loader/VM while serving a crafted module, SIGPIPE on a vanished peer and descriptor exhaustion are behaviours of the process the model cannot exhibit; they are what the runs provoke (thorough tier: ASan+UBSan build of the daemon).",
+        technique="Lean 4 proof (decision logic of the session handler over all byte sequences, fold invariant over session lists) + translator + fault-sequence driver with liveness probe after every step + correspondence on replies",
+        design="6/C18"),
     "C19": dict(
         category="proof",
         text=("What a proof can say here is limited and stated as such: the Lean models of string-pool construction and serialisation are pure "
